@@ -26,6 +26,10 @@ structure ClientAccOK (cr : Crypto) (cfg : Cfg) (a : Accept) : Prop where
   neg : ∃ info, NegOK true cfg a.view.pre.is a.neg info ∧ BodyForm info.form a.view.body ∧
           ∀ e f, a.view.body = .dh e f → dhClientRangeOk f info.p = true
   trusted : cr.trusted a.view.hostKey = true
+  /-- the host key presented can be used with the negotiated host key algorithm -/
+  keyAlg : a.neg.hostKey ∈ cr.keyAlgs a.view.hostKey
+  /-- the signature names the signature algorithm of the negotiated host key algorithm -/
+  sigAlg : sigAlgName a.sig = some (sigAlgFor a.neg.hostKey)
   verified : ∃ hi, hashInput? a.view = some hi ∧ cr.verify a.view.hostKey (cr.hashOf a.neg.kex hi) a.sig = true
   gexReq : ∀ r p g e f, a.view.body = .gex r p g e f → r = clientGexReq ∧ dhClientRangeOk f p = true
 
@@ -36,7 +40,7 @@ theorem clientVerify_core (cr : Crypto) (cfg : Cfg) (st : CState) (hk : Bytes)
     (clientVerify cr cfg st hk shared sig).1.is = st.is ∧
     (clientVerify cr cfg st hk shared sig).1.negInfo = st.negInfo ∧
     (clientVerify cr cfg st hk shared sig).1.vs = st.vs := by
-  unfold clientVerify
+  unfold clientVerify clientFinish
   repeat' (first | split | dsimp only)
   all_goals simp
 
@@ -54,18 +58,33 @@ theorem clientVerify_acc {cr : Crypto} {cfg : Cfg} {st : CState} {hk : Bytes}
     (h : (clientVerify cr cfg st hk shared sig).1.acc = some a) :
     st.acc = some a ∨
     ∃ body k n info ic hi, shared = .ok (body, k) ∧ st.negInfo = some (n, info) ∧ ownKexInit true cfg = some ic ∧
-      cr.trusted hk = true ∧ a = ⟨⟨⟨cfg.version, st.vs, ic, st.is⟩, hk, body, k⟩, n, sig⟩ ∧
+      cr.trusted hk = true ∧ n.hostKey ∈ cr.keyAlgs hk ∧ sigAlgName sig = some (sigAlgFor n.hostKey) ∧
+      a = ⟨⟨⟨cfg.version, st.vs, ic, st.is⟩, hk, body, k⟩, n, sig⟩ ∧
       hashInput? a.view = some hi ∧ cr.verify hk (cr.hashOf n.kex hi) sig = true := by
   unfold clientVerify at h
-  repeat' (first | split at h | dsimp only at h)
-  all_goals first
-    | (left; simpa using h)
-    | skip
-  rename_i hnt _ body k _ _ n info ic hn hic _ hi hhi hv
-  right
-  simp only [Option.some.injEq] at h
-  subst h
-  exact ⟨body, k, n, info, ic, hi, rfl, hn, hic, by simpa using hnt, rfl, hhi, hv⟩
+  cases hn : st.negInfo with
+  | none => left; simpa [hn] using h
+  | some ni =>
+    obtain ⟨n, info⟩ := ni
+    simp only [hn] at h
+    split at h
+    · left; simpa using h
+    · split at h
+      · left; simpa using h
+      · split at h
+        · left; simpa using h
+        · rename_i hka htr hsa
+          unfold clientFinish at h
+          repeat' (first | split at h | dsimp only at h)
+          all_goals first
+            | (left; simpa using h)
+            | skip
+          rename_i body k _ ic hic _ hi hhi hv
+          right
+          simp only [Option.some.injEq] at h
+          subst h
+          exact ⟨body, k, n, info, ic, hi, rfl, rfl, hic, by simpa using htr, by simpa using hka,
+            by simpa using hsa, rfl, hhi, hv⟩
 
 /-- conditions on the method-specific values a reply handler hands to `clientVerify` -/
 def SharedOK (info : KexInfo) (shared : Except Err (KexBody × Bytes)) : Prop :=
@@ -79,15 +98,15 @@ theorem clientVerify_ok {cr : Crypto} {cfg : Cfg} {st : CState} {hk : Bytes}
     (hneg : st.negInfo = some (n, info)) (hok : NegOK true cfg st.is n info) (hs : SharedOK info shared)
     (h : (clientVerify cr cfg st hk shared sig).1.acc = some a) :
     st.acc = some a ∨ ClientAccOK cr cfg a := by
-  rcases clientVerify_acc h with h | ⟨body, k, n', info', ic, hi, hsh, hn, hic, htr, rfl, hhi, hv⟩
+  rcases clientVerify_acc h with h | ⟨body, k, n', info', ic, hi, hsh, hn, hic, htr, hka, hsa, rfl, hhi, hv⟩
   · exact Or.inl h
   · right
     rw [hneg] at hn
     simp only [Option.some.injEq, Prod.mk.injEq] at hn
     obtain ⟨rfl, rfl⟩ := hn
     obtain ⟨hbf, hdh, hgex⟩ := hs body k hsh
-    exact { vc := rfl, ic := hic, neg := ⟨info, hok, hbf, hdh⟩, trusted := htr, verified := ⟨hi, hhi, hv⟩,
-            gexReq := hgex }
+    exact { vc := rfl, ic := hic, neg := ⟨info, hok, hbf, hdh⟩, trusted := htr, keyAlg := hka, sigAlg := hsa,
+            verified := ⟨hi, hhi, hv⟩, gexReq := hgex }
 
 theorem dhClientSecret_ok {cr : Crypto} {g p f : Int} {k : Bytes} (h : dhClientSecret cr g p f = .ok k) :
     dhClientRangeOk f p = true := by
@@ -256,6 +275,7 @@ theorem clientStep_inv {cr : Crypto} {cfg : Cfg} {st : CState} (m : Bytes) (hinv
 @[simp] theorem SState.fail_signedRecs (st : SState) (e : Err) : (st.fail e).1.signedRecs = st.signedRecs := rfl
 @[simp] theorem SState.fail_p (st : SState) (e : Err) : (st.fail e).1.p = st.p := rfl
 @[simp] theorem SState.fail_gexReq (st : SState) (e : Err) : (st.fail e).1.gexReq = st.gexReq := rfl
+@[simp] theorem SState.fail_hostAlg (st : SState) (e : Err) : (st.fail e).1.hostAlg = st.hostAlg := rfl
 
 /-- what is known about a record the server signed -/
 structure ServerAccOK (cfg : Cfg) (a : Accept) : Prop where
@@ -265,9 +285,13 @@ structure ServerAccOK (cfg : Cfg) (a : Accept) : Prop where
           ∀ e f, a.view.body = .dh e f → dhServerRangeOk e info.p = true
   gex : ∀ r p g e f, a.view.body = .gex r p g e f →
           (r.length = 4 ∨ r.length = 12) ∧ (∃ i, p = (groupAt i).2) ∧ dhServerRangeOk e p = true
+  /-- the signature was made with, and names, the signature algorithm of the host key algorithm negotiated
+      on this very connection -/
+  sigAlg : sigAlgName a.sig = some (sigAlgFor a.neg.hostKey)
 
 structure SInv (cfg : Cfg) (st : SState) : Prop where
   negOK : ∀ n info, st.negInfo = some (n, info) → NegOK false cfg st.ic n info
+  hostAlgOK : ∀ n info, st.negInfo = some (n, info) → st.hostAlg = n.hostKey
   recOK : ∀ r ∈ st.signedRecs, ServerAccOK cfg r.1 ∧ hashInput? r.1.view = some r.2
   pOK : ∃ i, st.p = (groupAt i).2
   dhP : ∀ n info, st.negInfo = some (n, info) → info.form = .dh → st.p = info.p
@@ -276,18 +300,19 @@ structure SInv (cfg : Cfg) (st : SState) : Prop where
 
 def SFrame (st st' : SState) : Prop :=
   st'.ic = st.ic ∧ st'.negInfo = st.negInfo ∧ st'.signedRecs = st.signedRecs ∧ st'.p = st.p ∧
-    st'.gexReq = st.gexReq
+    st'.gexReq = st.gexReq ∧ st'.hostAlg = st.hostAlg
 
 theorem SInv.frame {cfg : Cfg} {st st' : SState} (h : SInv cfg st) (f : SFrame st st') : SInv cfg st' := by
-  obtain ⟨f1, f2, f3, f4, f5⟩ := f
-  exact ⟨by rw [f1, f2]; exact h.negOK, by rw [f3]; exact h.recOK, by rw [f4]; exact h.pOK,
-         by rw [f4, f2]; exact h.dhP, by rw [f4, f5, f2]; exact h.reqOK⟩
+  obtain ⟨f1, f2, f3, f4, f5, f6⟩ := f
+  exact ⟨by rw [f1, f2]; exact h.negOK, by rw [f6, f2]; exact h.hostAlgOK, by rw [f3]; exact h.recOK,
+         by rw [f4]; exact h.pOK, by rw [f4, f2]; exact h.dhP, by rw [f4, f5, f2]; exact h.reqOK⟩
 
 theorem groupAt_oob : (groupAt Gen.C03.dhGroups.length).2 = 0 := by
   simp [groupAt]
 
 theorem serverInit_inv (cfg : Cfg) : SInv cfg (serverInit cfg).1 :=
-  ⟨by intro n info h; simp [serverInit] at h, by intro r h; simp [serverInit] at h,
+  ⟨by intro n info h; simp [serverInit] at h, by intro n info h; simp [serverInit] at h,
+   by intro r h; simp [serverInit] at h,
    ⟨_, groupAt_oob.symm⟩, by intro n info h; simp [serverInit] at h, by intro n info h; simp [serverInit] at h⟩
 
 theorem serverOnLine_frame (cfg : Cfg) (st : SState) (m : Bytes) : SFrame st (serverOnLine cfg st m).1 := by
@@ -315,21 +340,30 @@ theorem serverSign_spec {cr : Crypto} {cfg : Cfg} {st : SState} {body : KexBody}
     {reply : Bytes → Bytes → Option Bytes} :
     SFrame st (serverSign cr cfg st body k reply).1 ∨
     ∃ n info is hi sig, st.negInfo = some (n, info) ∧ ownKexInit false cfg = some is ∧
+      sigAlgName sig = some (sigAlgFor st.hostAlg) ∧
       hashInput? ⟨⟨st.vc, cfg.version, st.ic, is⟩, cr.hostKeyOf st.hostAlg, body, k⟩ = some hi ∧
       (serverSign cr cfg st body k reply).1.signedRecs =
         (⟨⟨⟨st.vc, cfg.version, st.ic, is⟩, cr.hostKeyOf st.hostAlg, body, k⟩, n, sig⟩, hi) :: st.signedRecs ∧
       (serverSign cr cfg st body k reply).1.ic = st.ic ∧
       (serverSign cr cfg st body k reply).1.negInfo = st.negInfo ∧
       (serverSign cr cfg st body k reply).1.p = st.p ∧
-      (serverSign cr cfg st body k reply).1.gexReq = st.gexReq := by
+      (serverSign cr cfg st body k reply).1.gexReq = st.gexReq ∧
+      (serverSign cr cfg st body k reply).1.hostAlg = st.hostAlg := by
   unfold serverSign
   repeat' (first | split | dsimp only)
   all_goals first
-    | (left; exact ⟨rfl, rfl, rfl, rfl, rfl⟩)
+    | (left; exact ⟨rfl, rfl, rfl, rfl, rfl, rfl⟩)
     | skip
-  rename_i n info is hn his _ hi hhi _ r hr
+  rename_i n info is hn his _ hi hhi _ sig hsig _ r hr
   right
-  exact ⟨n, info, is, hi, _, hn, his, hhi, rfl, rfl, rfl, rfl, rfl⟩
+  refine ⟨n, info, is, hi, sig, hn, his, ?_, hhi, rfl, rfl, rfl, rfl, rfl, rfl⟩
+  unfold hostKeySign at hsig
+  cases he : encString? (sigAlgFor st.hostAlg) with
+  | none => simp [he] at hsig
+  | some nb =>
+    simp only [he, Option.map, Option.some.injEq] at hsig
+    subst hsig
+    simp [sigAlgName, getString_enc he]
 /-- conditions on the method-specific values a handler hands to `serverSign` -/
 def SBodyOK (info : KexInfo) (body : KexBody) : Prop :=
   BodyForm info.form body ∧
@@ -342,15 +376,16 @@ theorem serverSign_inv {cr : Crypto} {cfg : Cfg} {st : SState} {body : KexBody} 
     (hb : ∀ n info, st.negInfo = some (n, info) → SBodyOK info body) :
     SInv cfg (serverSign cr cfg st body k reply).1 := by
   rcases serverSign_spec (cr := cr) (cfg := cfg) (st := st) (body := body) (k := k) (reply := reply) with
-    f | ⟨n, info, is, hi, sig, hn, his, hhi, hrec, h1, h2, h3, h4⟩
+    f | ⟨n, info, is, hi, sig, hn, his, hsa, hhi, hrec, h1, h2, h3, h4, h5⟩
   · exact hinv.frame f
   · obtain ⟨hbf, hdh, hgex⟩ := hb n info hn
-    refine ⟨by rw [h1, h2]; exact hinv.negOK, ?_, by rw [h3]; exact hinv.pOK, by rw [h3, h2]; exact hinv.dhP,
-      by rw [h3, h4, h2]; exact hinv.reqOK⟩
+    refine ⟨by rw [h1, h2]; exact hinv.negOK, by rw [h5, h2]; exact hinv.hostAlgOK, ?_, by rw [h3]; exact hinv.pOK,
+      by rw [h3, h2]; exact hinv.dhP, by rw [h3, h4, h2]; exact hinv.reqOK⟩
     intro r hr
     rw [hrec] at hr
     rcases List.mem_cons.mp hr with rfl | hr
-    · exact ⟨{ vs := rfl, is := his, neg := ⟨info, hinv.negOK n info hn, hbf, hdh⟩, gex := hgex }, hhi⟩
+    · exact ⟨{ vs := rfl, is := his, neg := ⟨info, hinv.negOK n info hn, hbf, hdh⟩, gex := hgex,
+               sigAlg := by rw [hsa, hinv.hostAlgOK n info hn] }, hhi⟩
     · exact hinv.recOK r hr
 
 theorem serverOnDhInit_inv {cr : Crypto} {cfg : Cfg} {st : SState} {rt : Nat} {mk : Int → Int → KexBody}
@@ -361,7 +396,7 @@ theorem serverOnDhInit_inv {cr : Crypto} {cfg : Cfg} {st : SState} {rt : Nat} {m
   unfold serverOnDhInit
   repeat' (first | split | dsimp only)
   all_goals first
-    | exact hinv.frame ⟨rfl, rfl, rfl, rfl, rfl⟩
+    | exact hinv.frame ⟨rfl, rfl, rfl, rfl, rfl, rfl⟩
     | skip
   rename_i hp _ e b he _ _ f k hs
   exact serverSign_inv hinv (fun n info hn => hb n info e f hn hp (dhServerSecret_ok hs))
@@ -398,7 +433,7 @@ theorem serverOnKex_inv {cr : Crypto} {cfg : Cfg} {st : SState} {n : Negotiated}
   · -- dh
     repeat' (first | split | dsimp only)
     all_goals first
-      | exact hinv.frame ⟨rfl, rfl, rfl, rfl, rfl⟩
+      | exact hinv.frame ⟨rfl, rfl, rfl, rfl, rfl, rfl⟩
       | skip
     refine serverOnDhInit_inv hinv ?_
     intro n' info' e f hn hp hr
@@ -409,10 +444,10 @@ theorem serverOnKex_inv {cr : Crypto} {cfg : Cfg} {st : SState} {n : Negotiated}
   · -- gex
     repeat' (first | split | dsimp only)
     all_goals first
-      | exact hinv.frame ⟨rfl, rfl, rfl, rfl, rfl⟩
+      | exact hinv.frame ⟨rfl, rfl, rfl, rfl, rfl, rfl⟩
       | skip
     · rename_i _ _ _ _ pref mx hparse _ _ _ _ _ _
-      refine ⟨hinv.negOK, hinv.recOK, ⟨_, rfl⟩, ?_, ?_⟩
+      refine ⟨hinv.negOK, hinv.hostAlgOK, hinv.recOK, ⟨_, rfl⟩, ?_, ?_⟩
       · intro n' info' hn hdh
         have := same n' info' hn; subst this; rw [hf] at hdh; cases hdh
       · intro n' info' _ _
@@ -429,7 +464,7 @@ theorem serverOnKex_inv {cr : Crypto} {cfg : Cfg} {st : SState} {n : Negotiated}
   · -- ecdh
     repeat' (first | split | dsimp only)
     all_goals first
-      | exact hinv.frame ⟨rfl, rfl, rfl, rfl, rfl⟩
+      | exact hinv.frame ⟨rfl, rfl, rfl, rfl, rfl, rfl⟩
       | skip
     refine serverSign_inv hinv ?_
     intro n' info' hn
@@ -438,7 +473,7 @@ theorem serverOnKex_inv {cr : Crypto} {cfg : Cfg} {st : SState} {n : Negotiated}
   · -- hybrid
     repeat' (first | split | dsimp only)
     all_goals first
-      | exact hinv.frame ⟨rfl, rfl, rfl, rfl, rfl⟩
+      | exact hinv.frame ⟨rfl, rfl, rfl, rfl, rfl, rfl⟩
       | skip
     refine serverSign_inv hinv ?_
     intro n' info' hn
@@ -447,7 +482,7 @@ theorem serverOnKex_inv {cr : Crypto} {cfg : Cfg} {st : SState} {n : Negotiated}
   · -- rsa
     repeat' (first | split | dsimp only)
     all_goals first
-      | exact hinv.frame ⟨rfl, rfl, rfl, rfl, rfl⟩
+      | exact hinv.frame ⟨rfl, rfl, rfl, rfl, rfl, rfl⟩
       | skip
     refine serverSign_inv hinv ?_
     intro n' info' hn
@@ -457,6 +492,7 @@ theorem serverStartKex_spec (cr : Crypto) (st : SState) (info : KexInfo) :
     (serverStartKex cr st info).1.ic = st.ic ∧ (serverStartKex cr st info).1.negInfo = st.negInfo ∧
     (serverStartKex cr st info).1.signedRecs = st.signedRecs ∧
     (serverStartKex cr st info).1.gexReq = st.gexReq ∧
+    (serverStartKex cr st info).1.hostAlg = st.hostAlg ∧
     ((info.form ≠ .dh ∧ info.form ≠ .gex ∧ (serverStartKex cr st info).1.p = st.p) ∨
      (info.form = .dh ∧ (serverStartKex cr st info).1.p = info.p) ∨
      (info.form = .gex ∧ (serverStartKex cr st info).1.p = 0)) := by
@@ -471,15 +507,20 @@ theorem serverStartKex_spec (cr : Crypto) (st : SState) (info : KexInfo) :
 theorem serverStartKex_inv {cr : Crypto} {cfg : Cfg} {st1 : SState} {info : KexInfo} {n : Negotiated}
     (e2 : st1.negInfo = some (n, info)) (hok : NegOK false cfg st1.ic n info)
     (hrec : ∀ r ∈ st1.signedRecs, ServerAccOK cfg r.1 ∧ hashInput? r.1.view = some r.2)
-    (hp : ∃ i, st1.p = (groupAt i).2) (hinfo : kexInfo n.kex = some info) :
+    (hp : ∃ i, st1.p = (groupAt i).2) (hinfo : kexInfo n.kex = some info) (hha : st1.hostAlg = n.hostKey) :
     SInv cfg (serverStartKex cr st1 info).1 := by
-  obtain ⟨s1, s2, s3, s4, s5⟩ := serverStartKex_spec cr st1 info
-  refine ⟨?_, by rw [s3]; exact hrec, ?_, ?_, ?_⟩
+  obtain ⟨s1, s2, s3, s4, s6, s5⟩ := serverStartKex_spec cr st1 info
+  refine ⟨?_, ?_, by rw [s3]; exact hrec, ?_, ?_, ?_⟩
   · intro n' info' h
     rw [s2, e2] at h
     simp only [Option.some.injEq, Prod.mk.injEq] at h
     obtain ⟨rfl, rfl⟩ := h
     rw [s1]; exact hok
+  · intro n' info' h
+    rw [s2, e2] at h
+    simp only [Option.some.injEq, Prod.mk.injEq] at h
+    obtain ⟨rfl, rfl⟩ := h
+    rw [s6]; exact hha
   · rcases s5 with ⟨_, _, h⟩ | ⟨_, h⟩ | ⟨_, h⟩
     · rw [h]; exact hp
     · rw [h]; exact kexInfo_group hinfo
@@ -507,13 +548,13 @@ theorem serverOnKexInit_inv {cr : Crypto} {cfg : Cfg} {st : SState} {tb : UInt8}
   unfold serverOnKexInit
   repeat' (first | split | dsimp only)
   all_goals first
-    | exact hinv.frame ⟨rfl, rfl, rfl, rfl, rfl⟩
+    | exact hinv.frame ⟨rfl, rfl, rfl, rfl, rfl, rfl⟩
     | skip
   rename_i peer hpeer _ n hn _ info hinfo _
   exact serverStartKex_inv (n := n) rfl ⟨body, peer, by rw [toNat_eq_msgByte ht], hpeer, hn, hinfo⟩
-    hinv.recOK hinv.pOK hinfo
+    hinv.recOK hinv.pOK hinfo rfl
 
-theorem bumpS_frame (o : SOut) : SFrame o.1 (bumpS o).1 := ⟨rfl, rfl, rfl, rfl, rfl⟩
+theorem bumpS_frame (o : SOut) : SFrame o.1 (bumpS o).1 := ⟨rfl, rfl, rfl, rfl, rfl, rfl⟩
 
 theorem serverStep_inv {cr : Crypto} {cfg : Cfg} {st : SState} (m : Bytes) (hinv : SInv cfg st) :
     SInv cfg (serverStep cr cfg st m).1 := by
@@ -524,7 +565,7 @@ theorem serverStep_inv {cr : Crypto} {cfg : Cfg} {st : SState} (m : Bytes) (hinv
   · exact hinv
   · exact hinv.frame (serverOnLine_frame cfg st m)
   · split
-    · exact hinv.frame ⟨rfl, rfl, rfl, rfl, rfl⟩
+    · exact hinv.frame ⟨rfl, rfl, rfl, rfl, rfl, rfl⟩
     · rename_i tb body
       dsimp only
       refine SInv.frame ?_ (bumpS_frame _)
@@ -533,15 +574,15 @@ theorem serverStep_inv {cr : Crypto} {cfg : Cfg} {st : SState} (m : Bytes) (hinv
       · split
         · split
           all_goals first
-            | exact hinv.frame ⟨rfl, rfl, rfl, rfl, rfl⟩
+            | exact hinv.frame ⟨rfl, rfl, rfl, rfl, rfl, rfl⟩
             | skip
           all_goals
             rename_i n info _ hneg
             split
-            · exact hinv.frame ⟨rfl, rfl, rfl, rfl, rfl⟩
+            · exact hinv.frame ⟨rfl, rfl, rfl, rfl, rfl, rfl⟩
             · exact serverOnKex_inv hinv hneg
         · repeat' (first | split | dsimp only)
-          all_goals exact hinv.frame ⟨rfl, rfl, rfl, rfl, rfl⟩
+          all_goals exact hinv.frame ⟨rfl, rfl, rfl, rfl, rfl, rfl⟩
 /-! ### group exchange: an old-form request cannot be confused with the client's new-form request -/
 
 theorem mpintLen_le_of_lt {n k : Nat} (h : n < 2 ^ k) : mpintLen (n : Int) ≤ (k + 8) / 8 := by
@@ -613,6 +654,8 @@ structure CfgWF (ccfg scfg : Cfg) : Prop where
   cWF : (sentKexInit true ccfg.cookie ccfg.algs).WF
   sWF : (sentKexInit false scfg.cookie scfg.algs).WF
   markers : MarkerFree ccfg.algs scfg.algs
+  /-- no GSS key exchange on the server's list (GSS exchanges need no host key algorithm; not modelled) -/
+  noGss : ∀ k ∈ scfg.algs.kex, isGssKex k = false
 
 /-- if a peer KEXINIT payload is literally what the other side's `_send_kexinit` built, the negotiation ran on
     the other side's lists -/
@@ -650,7 +693,7 @@ theorem accepted_eq_signed {cr : Crypto} {ccfg scfg : Cfg} (hwf : CfgWF ccfg scf
   -- the client parsed exactly what the server's `_send_kexinit` built, and vice versa
   have hA := negOK_of_sent (isClient := true) (other := scfg) hwf.sWF (by rw [hpre]; exact hb.is) hnegA
   have hB := negOK_of_sent (isClient := false) (other := ccfg) hwf.cWF (by rw [← hpre]; exact ha.ic) hnegB
-  have hneg : a.neg = b.neg := negotiate_agree hwf.markers hA.1 hB.1
+  have hneg : a.neg = b.neg := negotiate_agree hwf.markers hwf.noGss hA.1 hB.1
   have hinfo : infoA = infoB := by
     have := hA.2; rw [hneg, hB.2] at this; exact (Option.some.inj this).symm
   subst hinfo
@@ -690,12 +733,30 @@ theorem World.run_inv (cr : Crypto) (ccfg scfg : Cfg) (evs : List Ev) :
     CInv cr ccfg (World.run cr ccfg scfg evs).c ∧ SInv scfg (World.run cr ccfg scfg evs).s :=
   World.foldl_inv evs _ ⟨clientInit_inv cr ccfg, serverInit_inv scfg⟩
 
+/-! ### several connections of one listener: each keeps its own invariant, whatever the others receive -/
+
+theorem Listener.step_inv {cr : Crypto} {cfg : Cfg} {l : Listener} (ev : LEv)
+    (h : SInv cfg l.a ∧ SInv cfg l.b) : SInv cfg (l.step cr cfg ev).a ∧ SInv cfg (l.step cr cfg ev).b := by
+  cases ev with
+  | toA m => exact ⟨serverStep_inv m h.1, h.2⟩
+  | toB m => exact ⟨h.1, serverStep_inv m h.2⟩
+
+theorem Listener.run_inv (cr : Crypto) (cfg : Cfg) (evs : List LEv) :
+    SInv cfg (Listener.run cr cfg evs).a ∧ SInv cfg (Listener.run cr cfg evs).b := by
+  unfold Listener.run
+  have : ∀ (l : Listener), SInv cfg l.a ∧ SInv cfg l.b →
+      SInv cfg (evs.foldl (Listener.step cr cfg) l).a ∧ SInv cfg (evs.foldl (Listener.step cr cfg) l).b := by
+    induction evs with
+    | nil => intro l h; exact h
+    | cons ev rest ih => intro l h; exact ih _ (Listener.step_inv ev h)
+  exact this _ ⟨serverInit_inv cfg, serverInit_inv cfg⟩
+
 /-- a client in phase `accepted`/`done` holds an accepted record -/
 def CPhaseInv (st : CState) : Prop := (st.phase = .accepted ∨ st.phase = .done) → st.acc.isSome = true
 
 theorem clientVerify_phase (cr : Crypto) (cfg : Cfg) (st : CState) (hk : Bytes)
     (shared : Except Err (KexBody × Bytes)) (sig : Bytes) : CPhaseInv (clientVerify cr cfg st hk shared sig).1 := by
-  unfold clientVerify CPhaseInv
+  unfold clientVerify clientFinish CPhaseInv
   repeat' (first | split | dsimp only)
   all_goals simp [CState.fail]
 
